@@ -260,12 +260,13 @@ def order___KIND_____O__(big: int, min_size: int, k: int) -> bool:
 '''
 
 D = r'''
-def displaced___KIND__(wk: int, sk: int, big: int, min_size: int, first: int, k: int) -> bool:
+def displaced___KIND_____WK__(sk: int, big: int, min_size: int, first: int, k: int) -> bool:
     """
-    pre: 0 <= wk <= 6 and 0 <= sk <= 6 and 0 <= big <= 1 and 0 <= min_size <= 1 and 0 <= first <= 1 and 0 <= k <= KMAX
+    pre: 0 <= sk <= 6 and 0 <= big <= 1 and 0 <= min_size <= 1 and 0 <= first <= 1 and 0 <= k <= KMAX
     post: _
     """
-    wk = pick(wk, 0, 6); sk = pick(sk, 0, 6); big = pick(big, 0, 1); min_size = [0, 1024][pick(min_size, 0, 1)]
+    wk = __WK__
+    sk = pick(sk, 0, 6); big = pick(big, 0, 1); min_size = [0, 1024][pick(min_size, 0, 1)]
     with NoTracing():
         return displaced(["mem", "sqlite"][__KIND__], wk, sk, big, min_size, first, k)
 '''
@@ -306,8 +307,9 @@ def run(ctx: Ctx) -> None:
             src += F.replace("__KIND__", str(kind)).replace("__O__", str(o)).replace("KMAX", str(kmax))
             conds.append(Cond(f"order_{kind}_{o}", "confirm", 900))
     for kind in (0, 1):
-        src += D.replace("__KIND__", str(kind)).replace("KMAX", str(kmax))
-        conds.append(Cond(f"displaced_{kind}", "confirm", 1500, keyfn=_key_from_replay))
+        for wk in range(7):
+            src += D.replace("__KIND__", str(kind)).replace("__WK__", str(wk)).replace("KMAX", str(kmax))
+            conds.append(Cond(f"displaced_{kind}_{wk}", "confirm", 1500, keyfn=_key_from_replay))
     src += EXTRA.replace("KMAX", str(kmax))
     conds += [Cond("guard_all", "confirm", 600), Cond("twin", "refute", 60)]
     ctx.ch_batch("c05", src, conds)
